@@ -13,6 +13,7 @@ R2.4  required-ness: `is_required = prop_name in schema.required` is the only in
 R2.6  registration: every normal exit of _parse_schema with a name passes the registration (enumerated exceptions)
 R2.7  the cycle tracker's enter/exit calls are balanced on every path of _parse_schema (a leaked depth turns later,
       unrelated schemas into zero-field depth placeholders)                                   [typestate shared with C08]
+R2.11 the resolver's by-name registry fallback is taken only when the schema's own type agrees with the registered schema's
 """
 from __future__ import annotations
 
@@ -100,6 +101,7 @@ def run(repo: Repo, rep: Report, tier: str) -> None:
     threading_rule(repo, rep, "R2.9")
 
     rule_exact_registry_lookups(repo, rep, "R2.10")
+    rule_name_fallback_respects_kind(repo, rep, "R2.11")
     # ---------------------------------------------------------------- R2.2 name content
     ucd = repo.module("core.parsing.unified_cycle_detection")
     ucc = ucd.func("unified_cycle_check")
@@ -497,28 +499,42 @@ def rule_exact_registry_lookups(repo: Repo, rep: Report, rule: str = "R2.10") ->
     collide - a primitive property `address` is then typed as the model `Address`."""
     n = 0
     for m in repo.modules.values():
-        if ".types.resolvers." not in "." + m.name + ".":
+        if ".types.resolvers." not in "." + m.name + "." and ".core.loader.schemas." not in "." + m.name + ".":
             continue
+        REG = ("schemas", "parsed_schemas")
         for q, fn in m.functions.items():
             L = Locals(fn.node)
             for node in own_nodes(fn.node):
                 key = None
                 if isinstance(node, ast.Compare) and len(node.ops) == 1 and isinstance(node.ops[0], (ast.In, ast.NotIn)) and isinstance(node.comparators[0], ast.Attribute) \
-                        and node.comparators[0].attr == "schemas":
+                        and node.comparators[0].attr in REG:
                     key = node.left
-                elif isinstance(node, ast.Subscript) and isinstance(node.value, ast.Attribute) and node.value.attr == "schemas":
+                elif isinstance(node, ast.Subscript) and isinstance(node.value, ast.Attribute) and node.value.attr in REG:
                     key = node.slice
                 elif isinstance(node, ast.Call) and isinstance(node.func, ast.Attribute) and node.func.attr == "get" and isinstance(node.func.value, ast.Attribute) \
-                        and node.func.value.attr == "schemas" and node.args:
+                        and node.func.value.attr in REG and node.args:
                     key = node.args[0]
                 if key is None:
                     continue
+                # a lookup that only feeds `if <not found>: raise` is an assertion, not a resolution
+                pn = parent(node)
+                while isinstance(pn, (ast.BoolOp, ast.UnaryOp)):
+                    pn = parent(pn)
+                if isinstance(pn, ast.If) and any(x is node for x in ast.walk(pn.test)) and len(pn.body) == 1 and isinstance(pn.body[0], ast.Raise) and not pn.orelse:
+                    continue
                 n += 1
                 ki = L.inline(key, stop=tuple(L.params))
+                if isinstance(ki, ast.Name) and len(L.defs.get(ki.id, [])) > 1:
+                    # re-bound per loop (`sanitized_n = sanitize(n)` in two loops): every binding counts
+                    alts = [v for k_, v, _ in L.defs[ki.id] if v is not None]
+                    if alts:
+                        ki = ast.Tuple(elts=[L.inline(v, stop=tuple(L.params)) for v in alts], ctx=ast.Load())
                 # taking the name out of a `$ref` string (split / partition / removeprefix) keeps it exact; everything else may normalise
-                EXTRACT = ("split", "rsplit", "partition", "rpartition", "removeprefix", "removesuffix")
-                calls = [c for c in ast.walk(ki) if isinstance(c, ast.Call) and not (isinstance(c.func, ast.Name) and c.func.id == "str")
-                         and not (isinstance(c.func, ast.Attribute) and c.func.attr in EXTRACT)]
+                # (`getattr`, `.get`, the loop's own iterator are not transformations of the name either)
+                import re as _re
+
+                NORMALISING = _re.compile(r"sanitiz|normali|lower|upper|capitali|casefold|title|swapcase|strip|replace|translate|(^|\.)sub$")
+                calls = [c for c in ast.walk(ki) if isinstance(c, ast.Call) and NORMALISING.search(dotted(c.func) or (c.func.attr if isinstance(c.func, ast.Attribute) else ""))]
                 # conditional expressions `f(x) if x else None` count as well (ast.walk covers them)
                 sub = f"{m.relpath}:{q} registry lookup `{norm(node)[:50]}`"
                 if calls:
@@ -529,3 +545,60 @@ def rule_exact_registry_lookups(repo: Repo, rep: Report, rule: str = "R2.10") ->
                     rep.ok(rule, sub, "looked up by the name as the IR carries it", fn.loc(node))
     rep.count(f"{rule}:registry_lookups", n)
     rep.require(n >= 4, f"{rule}: only {n} schema-registry lookups found in types/resolvers (floor 4)")
+
+
+# ------------------------------------------------------------------------------------------------ R2.11 by-name fallback respects the schema's own kind
+def rule_name_fallback_respects_kind(repo: Repo, rep: Report, rule: str = "R2.11") -> None:
+    """For an inline property the parser stores the property *key* as `IRSchema.name`.  The resolver's "look the name up in the registry"
+    fallback therefore may only replace a schema by the registered one when their kinds agree: the recursive resolve of the looked-up
+    schema lies under a condition that compares the schema's own `type` with the target's."""
+    from sa.cfg import CFG, guards
+
+    sr = repo.module("types.resolvers.schema_resolver")
+    fn = sr.classes["OpenAPISchemaResolver"].methods.get("resolve_schema") if "OpenAPISchemaResolver" in sr.classes else None
+    if fn is None:
+        raise AnalysisError("anchor vanished: OpenAPISchemaResolver.resolve_schema")
+    L = Locals(fn.node)
+    p_schema = fn.params[1] if len(fn.params) > 1 else "schema"
+    cfg = CFG(fn.node)
+    dom = cfg.dominators()
+    n = 0
+    for nd in cfg.nodes:
+        if nd.kind != "stmt" or nd.ast is None or nd.copy:
+            continue
+        for c in calls_in(nd.ast):
+            if not (isinstance(c.func, ast.Attribute) and c.func.attr == fn.name and c.args and isinstance(c.args[0], ast.Name)):
+                continue
+            tgt = c.args[0].id
+            tdefs = [v for k, v, _ in L.defs.get(tgt, []) if v is not None]
+            # the target was fetched from the registry under the schema's *name*
+            by_name = any(isinstance(v, ast.Subscript) and isinstance(v.value, ast.Attribute) and v.value.attr == "schemas"
+                          and norm(L.inline(v.slice, stop=tuple(L.params))) == f"{p_schema}.name" for v in tdefs)
+            if not by_name:
+                continue
+            # only the lookup that is guarded by `<schema>.name in <registry>` (the by-name fallback)
+            gs = [(g, pol) for g, pol in guards(cfg, nd.id, dom) if g.kind == "test" and pol is not None]
+            if not any(f"{p_schema}.name in" in norm(L.inline(g.ast, stop=tuple(L.params))) for g, _ in gs):
+                continue
+            n += 1
+            sub = f"{sr.relpath}:resolve_schema by-name fallback `{norm(c)[:50]}`"
+            kinds = False
+            for g, pol in gs:
+                txt = norm(L.inline(g.ast, stop=tuple(L.params)))
+                if "type" in txt and tgt in txt and (p_schema in txt):
+                    kinds = True
+            if not kinds:
+                # the same decision written as "put the schema back when the kinds differ": `if <kinds differ>: target = schema`
+                for nd2 in cfg.nodes:
+                    if nd2.kind == "stmt" and isinstance(nd2.ast, ast.Assign) and any(isinstance(t, ast.Name) and t.id == tgt for t in nd2.ast.targets) \
+                            and isinstance(nd2.ast.value, ast.Name) and nd2.ast.value.id == p_schema:
+                        for g, pol in guards(cfg, nd2.id, dom):
+                            if g.kind == "test" and pol is not None and "type" in norm(L.inline(g.ast, stop=tuple(L.params))):
+                                kinds = True
+            if kinds:
+                rep.ok(rule, sub, "taken only when the schema's own type and the registered schema's type agree", fn.loc(c))
+            else:
+                rep.violation(rule, sub, f"{fn.fq}|name-fallback-ignores-kind",
+                              f"a schema is replaced by `registry[{p_schema}.name]` whatever its own type is: the parser stores the property key as name, so a string property "
+                              "called `Address` next to a schema `Address` is typed as that model and a conforming document cannot be decoded", fn.loc(c))
+    rep.require(n >= 1, f"{rule}: the by-name registry fallback of resolve_schema was not found (anchor)")
